@@ -1,2 +1,44 @@
-(* Properties_C14_bitmap.v — placeholder, theorems are added below as they are proved *)
-Require Import VV.Base VV.Bitmap.
+(* Properties_C14_bitmap.v — C14 for varintBitmapDecode(buffer, len) (after the
+   fix: commit for F14).  bm_decode z len returns (result or NULL, bytes asked from
+   malloc); the model reads byte i of the buffer as `nth i z 0`, so "reads nothing
+   at or beyond len" is the statement that the result does not depend on the
+   bytes from position len on.  Termination: bm_decode is a total Coq function
+   without fuel (structural recursion on the bytes read).  Statements only. *)
+Require Import VV.Base VV.Bitmap VV.BitmapProofs VV.BitmapProofsSer.
+Local Open Scope N_scope.
+
+(* two buffers that agree on their first `len` bytes decode alike: nothing at or
+   beyond the declared length is read, whatever the (truncated, corrupt, hostile)
+   contents *)
+Theorem C14_bitmap_decode_reads_below_len : forall z z' len,
+  firstn (N.to_nat len) z = firstn (N.to_nat len) z' -> bm_decode z len = bm_decode z' len.
+Proof. exact decode_nonint. Qed.
+Print Assumptions C14_bitmap_decode_reads_below_len.
+
+(* never asks for more than 24 + max(len, 8192) bytes *)
+Theorem C14_bitmap_decode_bounded_allocation : forall z len,
+  snd (bm_decode z len) <= 24 + N.max len 8192.
+Proof. exact decode_alloc. Qed.
+Print Assumptions C14_bitmap_decode_bounded_allocation.
+
+(* it either fails or returns a bitmap satisfying the representation invariant
+   (on which every later operation is covered by C08) *)
+Theorem C14_bitmap_decode_result_wellformed : forall z len s,
+  bytes_ok z -> fst (bm_decode z len) = Some s -> bm_Inv s.
+Proof. exact decode_inv. Qed.
+Print Assumptions C14_bitmap_decode_result_wellformed.
+
+(* every truncation of every valid encoding is reported as an error *)
+Theorem C14_bitmap_decode_truncated : forall s, bm_Inv s -> forall tl len,
+  len < N.of_nat (length (bm_encode s)) -> fst (bm_decode (bm_encode s ++ tl) len) = None.
+Proof. exact decode_truncated. Qed.
+Print Assumptions C14_bitmap_decode_truncated.
+
+(* non-vacuity: a 5-byte header announcing 3 array values is rejected when the
+   declared length is 5 whatever follows in memory, and accepted with length 11 *)
+Example C14_bitmap_example :
+  fst (bm_decode [0; 3; 0; 0; 0; 1; 0; 2; 0; 3; 0] 5) = None /\
+  option_map bm_to_array (fst (bm_decode [0; 3; 0; 0; 0; 1; 0; 2; 0; 3; 0] 11)) = Some [1; 2; 3] /\
+  fst (bm_decode [7; 5; 0; 0; 0] 5) = None /\
+  fst (bm_decode [0; 2; 0; 0; 0; 2; 0; 1; 0] 9) = None.
+Proof. vm_compute. repeat split; reflexivity. Qed.
